@@ -10,6 +10,7 @@ X: every key of a unicode key menu x every value of each type's domain round-tri
 """
 import hashlib
 import itertools
+import copy
 import os
 import shutil
 
@@ -443,6 +444,25 @@ def _keys_values_job(ctype):
                                                 f'get_or_compute called the computer {n[0]} time(s)', {'kind': 'keys', 'ctype': ctype}))
             elif not same(g, v) or not same(r, v):
                 res.violations.append(Violation(f'{ctype} cache: stored value does not round-trip', f'key {key!r} in {where}: stored {_show(v)}, get -> {_show(g)}, get_or_compute -> {_show(r)}', {'kind': 'keys', 'ctype': ctype}))
+        # a returned value is the caller's: changing it in place changes neither what the cache returns next (same instance, a
+        # new instance) nor what a sibling sub-cache holding an equal value under the same key returns
+        if ctype in ('json', 'json_nonone'):
+            orig = {'a': [1, {'k': [2]}], 'b': 'x'}
+            cj = make_cache(ctype, d)
+            s1, s2 = cj.subcache('mut1'), cj.subcache('mut2')
+            for c_ in (cj, s1, s2):
+                c_.get_or_compute('mut', lambda: copy.deepcopy(orig))
+            for reader, others in ((cj, (cj, make_cache(ctype, d))), (s1, (s1, s2, cj.subcache('mut2')))):
+                got = reader.get('mut')
+                got['a'].append('POLLUTED')
+                got['a'][1]['k'].clear()
+                got['new'] = 1
+                for o in others:
+                    res.add('evaluations', 2)
+                    for how, val in (('get', o.get('mut')), ('get_or_compute', o.get_or_compute('mut', lambda: 'recomputed'))):
+                        if val != orig:
+                            res.violations.append(Violation(f'{ctype} cache: a value changed in place by its receiver is served to later readers', f'{how} -> {_show(val)}, stored {_show(orig)}',
+                                                            {'kind': 'keys', 'ctype': ctype}))
         # a returned value is the caller's: a later forced write of the entry must not change it (also for large arrays)
         if ctype == 'numpy':
             big1 = np.arange(1_200_000, dtype=np.float64)          # > 8 MiB on disk
